@@ -150,7 +150,8 @@ class Sys:
         return []
 
     def state_check(self, pre, op, post, obs):
-        diff = battery.differential(post, self.keys, all_universe)
+        hist = self.current_history
+        diff = battery.differential(post, self.keys, all_universe, fresh=lambda: engine_h.build(self, hist))
         if not diff:
             return []
         return [(fingerprint(pre, op, diff), {"op": list(op), "differs": [list(map(repr, d)) for d in diff[:4]],
@@ -187,7 +188,7 @@ def replay(rec, verbose=False):
         r = s.apply(w, op)
         if verbose:
             print(f"  {op} -> {r}   flag={w.flag} links={observe(w)['lv']}")
-    diff = battery.differential(w, s.keys, all_universe)
+    diff = battery.differential(w, s.keys, all_universe, fresh=lambda: engine_h.build(s, hist))
     if verbose:
         for d in diff[:6]:
             print("  differs:", d[0], " with caching:", d[1], " recomputed:", d[2])
